@@ -926,6 +926,16 @@ fn run(ctx: &mut Ctx) {
             deep = wrap_all(&deep).swap_remove(i % 22);
         }
         judge(ctx, &deep, "deep-nesting");
+        // 100 and 600 levels through one wrapper kind at a time (options, newtypes, one-element sequences / tuples / maps / structs / variants)
+        for levels in [100usize, 600] {
+            for k in [0usize, 1, 2, 3, 5, 6, 8, 10, 12, 13, 18] {
+                let mut deep = M::U64(u64::MAX - 7);
+                for _ in 0..levels {
+                    deep = wrap_all(&deep).swap_remove(k);
+                }
+                judge(ctx, &deep, "deep-nesting");
+            }
+        }
     }
     // all fields skipped; derived types with the usual serde attributes, judged against serde_json
     if ctx.mine() {
